@@ -309,7 +309,7 @@ def ensure_built():
 
 # --------------------------------------------------------------------------- trace batches
 def validate_events(trace_module, events, *, cfg=None, native=True, chunk=2000, jobs=8,
-                    timeout=1800, tag="tr", env=None, deque=False):
+                    timeout=1800, tag="tr", env=None, deque=False, heap="2500m"):
     """Feed events (list of JSON-able dicts, each with an integer 'id') to spec/<trace_module>.tla
     in chunks, several JVMs in parallel.  The trace spec prints <<"V", id, verdict>> for every
     event it consumed.  Returns ({id: verdict}, stats)."""
@@ -330,7 +330,7 @@ def validate_events(trace_module, events, *, cfg=None, native=True, chunk=2000, 
             e.update(env)
         try:
             r = tlc(trace_module, cfg or trace_module + ".cfg", native=native, env=e, timeout=timeout,
-                    tag=f"{tag}-{os.getpid()}-{ix}", deque=deque)
+                    tag=f"{tag}-{os.getpid()}-{ix}", deque=deque, heap=heap)
         finally:
             try:
                 os.remove(path)
